@@ -33,8 +33,10 @@ Checks(e) ==
          \cup Flag(e.prefix, "C18_scrypt_shorter_output_is_not_a_prefix")
          \cup Flag(e.hmac_norm, "C18_scrypt_password_not_used_as_an_hmac_key")
     [] e.ev = "oracle" ->
-         Flag(e.same, IF e.fn = "scrypt" THEN "C18_scrypt_differs_from_reference" ELSE "C19_primitive_differs_from_reference")
-    [] e.ev = "rfc" -> Flag(e.same, "C19_primitive_differs_from_structural_rfc_definition")
+         Flag(e.same, IF e.fn \in {"scrypt", "salsa20_8"} THEN "C18_scrypt_differs_from_reference" ELSE "C19_primitive_differs_from_reference")
+    [] e.ev = "rfc" ->
+         Flag(e.same, IF e.kind = "scrypt" THEN "C18_scrypt_differs_from_rfc7914_structure_over_hmac_and_salsa20_8"
+                      ELSE "C19_primitive_differs_from_structural_rfc_definition")
     [] e.ev = "aead" ->
          Flag(e.res = "ok", "C19_aead_panic")
          \cup Flag(e.res # "ok" \/ e.len_ok, "C19_aead_ciphertext_length")
